@@ -40,6 +40,7 @@ func init() {
 			{ID: "C18-R19", Title: "evaluations run under the caller's context", Floor: 2, Run: evaluationsRunUnderTheCallersContext},
 			{ID: "C18-R20", Title: "the snapshot comes first", Floor: 2, Run: theSnapshotComesFirst},
 			{ID: "C18-R21", Title: "importers remember only successes", Floor: 2, Run: importersRememberOnlySuccesses},
+			{ID: "C18-R22", Title: "a rollback only takes away", Floor: 2, Run: rollbackOnlyTakesAway},
 		},
 	})
 }
